@@ -243,11 +243,25 @@ def remove_rule(F, R, rule='B.C12.remove'):
 
         def atom(desc):
             """(atom, polarity of the described value) or None"""
+            from ..paths import parse_term
             d = desc
             neg = 0
-            while d.startswith('Not(') and d.endswith(')'):
-                d = d[4:-1]
-                neg += 1
+            while True:
+                if d.startswith('Not(') and d.endswith(')'):
+                    d = d[4:-1]
+                    neg += 1
+                    continue
+                nm0, args0 = parse_term(d)
+                if nm0 in ('Eq', 'Ne') and args0 and len(args0) == 2 and (args0[0] in ('True', 'False') or args0[1] in ('True', 'False')):
+                    # `x == false`, `x != true`: the comparison with a literal is a (possibly negated) copy of x
+                    c, x = (args0[1], args0[0]) if args0[1] in ('True', 'False') else (args0[0], args0[1])
+                    if (c == 'False') != (nm0 == 'Ne'):
+                        neg += 1
+                    d = x
+                    continue
+                break
+            if args0 is not None and nm0 in ('Eq', 'Ne', 'Lt', 'Le', 'Gt', 'Ge', 'BitAnd', 'BitOr', 'BitXor', 'Add', 'Sub', 'Mul'):
+                return None     # an operator over something: not one of the documented atoms
             pol = (neg % 2 == 0)
             if 'Iterator::any' in d:
                 forms.add('any')
